@@ -315,6 +315,148 @@ theorem transposeCsr_abs (m : CSR R) (i j : Nat) (hi : i < m.rows) (hj : j < m.c
     · rfl
   rw [this, sum_single _ _ hi]
 
+theorem rowAbs_flatMap (l : Row R) (g : Nat × R → Row R) (j : Nat) :
+    rowAbs (l.flatMap g) j = (l.map fun p => rowAbs (g p) j).sum := by
+  induction l with
+  | nil => simp [rowAbs]
+  | cons p l ih => rw [List.flatMap_cons, rowAbs_append, ih]; simp
+
+theorem rowAbs_kron_inner (brow : Row R) (bc c1 j1 j2 : Nat) (v1 : R) (hj2 : j2 < bc)
+    (hb : ∀ p ∈ brow, p.1 < bc) :
+    rowAbs (brow.map fun p2 => (c1 * bc + p2.1, v1 * p2.2)) (j1 * bc + j2)
+      = if c1 = j1 then v1 * rowAbs brow j2 else 0 := by
+  induction brow with
+  | nil => simp [rowAbs]
+  | cons q brow ih =>
+    obtain ⟨c2, v2⟩ := q
+    have hc2 : c2 < bc := hb (c2, v2) List.mem_cons_self
+    have ih' := ih (fun p hp => hb p (List.mem_cons_of_mem _ hp))
+    simp only [List.map_cons, rowAbs, ih']
+    have key : (c1 * bc + c2 = j1 * bc + j2) ↔ (c1 = j1 ∧ c2 = j2) := by
+      constructor
+      · intro h
+        have h1 : (c1 * bc + c2) / bc = (j1 * bc + j2) / bc := by rw [h]
+        have h2 : (c1 * bc + c2) % bc = (j1 * bc + j2) % bc := by rw [h]
+        have hbc : 0 < bc := by omega
+        rw [Nat.add_comm, Nat.add_mul_div_right _ _ hbc, Nat.div_eq_of_lt hc2,
+          Nat.add_comm (j1 * bc), Nat.add_mul_div_right _ _ hbc, Nat.div_eq_of_lt hj2] at h1
+        rw [Nat.add_comm, Nat.add_mul_mod_self_right, Nat.mod_eq_of_lt hc2,
+          Nat.add_comm (j1 * bc), Nat.add_mul_mod_self_right, Nat.mod_eq_of_lt hj2] at h2
+        exact ⟨by omega, h2⟩
+      · rintro ⟨rfl, rfl⟩; rfl
+    by_cases h1 : c1 = j1
+    · subst h1
+      by_cases h2 : c2 = j2
+      · subst h2; simp; ring
+      · have : ¬ (c1 * bc + c2 = c1 * bc + j2) := fun h => h2 ((key.mp h).2)
+        simp [this, h2]
+    · have : ¬ (c1 * bc + c2 = j1 * bc + j2) := fun h => h1 ((key.mp h).1)
+      simp [this, h1]
+
+theorem sum_scaled_filter (arow : Row R) (j1 : Nat) (B : R) :
+    (arow.map fun p1 => if p1.1 = j1 then p1.2 * B else 0).sum = rowAbs arow j1 * B := by
+  induction arow with
+  | nil => simp [rowAbs]
+  | cons p arow ih =>
+    obtain ⟨c, v⟩ := p
+    simp only [List.map_cons, List.sum_cons, ih, rowAbs]
+    split <;> ring
+
+/-- **`kron_csr`** is the Kronecker product: entry (i₁·rows₂ + i₂, j₁·cols₂ + j₂) is a(i₁,j₁)·b(i₂,j₂),
+for every stored order, provided the stored columns of `b` are columns of `b` -/
+theorem kronCsr_abs (a b : CSR R) (i1 i2 j1 j2 : Nat) (hi1 : i1 < a.rows) (hi2 : i2 < b.rows) (hj2 : j2 < b.cols)
+    (hb : ∀ row ∈ b.r, ∀ p ∈ row, p.1 < b.cols) :
+    (kronCsr a b).abs (i1 * b.rows + i2) (j1 * b.cols + j2) = a.abs i1 j1 * b.abs i2 j2 := by
+  unfold kronCsr CSR.abs
+  simp only
+  have hlt : i1 * b.rows + i2 < a.rows * b.rows := by
+    calc i1 * b.rows + i2 < i1 * b.rows + b.rows := by omega
+      _ = (i1 + 1) * b.rows := by ring
+      _ ≤ a.rows * b.rows := Nat.mul_le_mul_right _ (by omega)
+  rw [List.getD_eq_getElem?_getD, List.getElem?_map, List.getElem?_range hlt]
+  simp only [Option.map_some, Option.getD_some]
+  have hbr : 0 < b.rows := by omega
+  have hd : (i1 * b.rows + i2) / b.rows = i1 := by
+    rw [Nat.add_comm, Nat.add_mul_div_right _ _ hbr, Nat.div_eq_of_lt hi2, Nat.zero_add]
+  have hm : (i1 * b.rows + i2) % b.rows = i2 := by
+    rw [Nat.add_comm, Nat.add_mul_mod_self_right, Nat.mod_eq_of_lt hi2]
+  rw [hd, hm, rowAbs_flatMap]
+  have hbrow : ∀ p ∈ b.r.getD i2 [], p.1 < b.cols := by
+    intro p hp
+    by_cases h : i2 < b.r.length
+    · rw [List.getD_eq_getElem?_getD, List.getElem?_eq_getElem h, Option.getD_some] at hp
+      exact hb _ (List.getElem_mem h) p hp
+    · rw [List.getD_eq_getElem?_getD, List.getElem?_eq_none (by omega)] at hp
+      simp at hp
+  have : ((a.r.getD i1 []).map fun p1 =>
+        rowAbs ((b.r.getD i2 []).map fun p2 => (p1.1 * b.cols + p2.1, p1.2 * p2.2)) (j1 * b.cols + j2))
+      = (a.r.getD i1 []).map fun p1 => if p1.1 = j1 then p1.2 * rowAbs (b.r.getD i2 []) j2 else 0 := by
+    apply List.map_congr_left
+    intro p1 _
+    exact rowAbs_kron_inner _ _ _ _ _ _ hj2 hbrow
+  rw [this, sum_scaled_filter]
+
+theorem rowAbs_scale_mul (s v : R) (b : Row R) (j : Nat) :
+    rowAbs (b.map fun p => (p.1, s * (v * p.2))) j = s * (v * rowAbs b j) := by
+  induction b with
+  | nil => simp [rowAbs]
+  | cons p b ih => obtain ⟨c, w⟩ := p; simp only [List.map_cons, rowAbs, ih]; split <;> ring
+
+/-- Σ_{k<n} row(k)·f(k) = Σ over the stored entries, when every stored column is below n -/
+theorem sum_rowAbs_mul (row : Row R) (n : Nat) (f : Nat → R) (h : ∀ p ∈ row, p.1 < n) :
+    ((List.range n).map fun k => rowAbs row k * f k).sum = (row.map fun p => p.2 * f p.1).sum := by
+  induction row with
+  | nil => simp [rowAbs, sum_replicate_zero]
+  | cons p row ih =>
+    obtain ⟨c, v⟩ := p
+    have hc : c < n := h (c, v) List.mem_cons_self
+    have ih' := ih (fun q hq => h q (List.mem_cons_of_mem _ hq))
+    simp only [List.map_cons, List.sum_cons, rowAbs]
+    rw [← ih']
+    have : ((List.range n).map fun k => ((if c = k then v else 0) + rowAbs row k) * f k)
+        = (List.range n).map fun k => (if k = c then v * f c else 0) + rowAbs row k * f k := by
+      apply List.map_congr_left
+      intro k _
+      by_cases e : c = k
+      · subst e; simp; ring
+      · have : ¬ k = c := fun e' => e e'.symm
+        simp [e, this]
+    rw [this]
+    have hsplit : ∀ (l : List Nat) (g1 g2 : Nat → R), (l.map fun k => g1 k + g2 k).sum = (l.map g1).sum + (l.map g2).sum := by
+      intro l g1 g2
+      induction l with
+      | nil => simp
+      | cons a l ihl => simp only [List.map_cons, List.sum_cons, ihl]; ring
+    rw [hsplit, sum_single n c hc]
+
+/-- **`matmul_csr`** is the matrix product: entry (i, j) = scale · Σ_k a(i,k)·b(k,j), for every stored
+order of both operands, provided the stored columns of `a` are columns of `a` -/
+theorem matmulCsr_abs (a b : CSR R) (s : R) (i j : Nat) (hi : i < a.rows)
+    (ha : ∀ row ∈ a.r, ∀ p ∈ row, p.1 < a.cols) :
+    (matmulCsr a b s).abs i j = s * ((List.range a.cols).map fun k => a.abs i k * b.abs k j).sum := by
+  unfold matmulCsr CSR.abs
+  simp only
+  rw [List.getD_eq_getElem?_getD, List.getElem?_map, List.getElem?_range hi]
+  simp only [Option.map_some, Option.getD_some]
+  rw [rowAbs_compress, rowAbs_flatMap]
+  have harow : ∀ p ∈ a.r.getD i [], p.1 < a.cols := by
+    intro p hp
+    by_cases h : i < a.r.length
+    · rw [List.getD_eq_getElem?_getD, List.getElem?_eq_getElem h, Option.getD_some] at hp
+      exact ha _ (List.getElem_mem h) p hp
+    · rw [List.getD_eq_getElem?_getD, List.getElem?_eq_none (by omega)] at hp
+      simp at hp
+  rw [sum_rowAbs_mul (a.r.getD i []) a.cols (fun k => rowAbs (b.r.getD k []) j) harow]
+  have : ((a.r.getD i []).map fun p1 => rowAbs ((b.r.getD p1.1 []).map fun p2 => (p2.1, s * (p1.2 * p2.2))) j)
+      = (a.r.getD i []).map fun p1 => s * (p1.2 * rowAbs (b.r.getD p1.1 []) j) := by
+    apply List.map_congr_left
+    intro p1 _
+    exact rowAbs_scale_mul _ _ _ _
+  rw [this]
+  induction (a.r.getD i []) with
+  | nil => simp
+  | cons p l ih => simp only [List.map_cons, List.sum_cons, ih]; ring
+
 /-! ### Dia -/
 
 /-- **Dense → Dia keeps every entry** (all rows + cols − 1 diagonals; values that would fall outside
